@@ -81,7 +81,9 @@ func (b Bundle) Fragment(mtu int) (bs []Bundle, err error) {
 			return
 		}
 
-		fragBundle := MustNewBundle(fragPrimaryBlock, nil)
+		// The blocks are copied with their block numbers and in their order. Bundle.AddExtensionBlock would assign new
+		// block numbers and the reassembled Bundle would no longer be identical to the original one.
+		fragBundle := Bundle{PrimaryBlock: fragPrimaryBlock}
 
 		for _, cb := range b.CanonicalBlocks {
 			if cb.TypeCode() == ExtBlockTypePayloadBlock {
@@ -91,13 +93,14 @@ func (b Bundle) Fragment(mtu int) (bs []Bundle, err error) {
 				continue
 			}
 
-			fragBundle.AddExtensionBlock(cb)
+			fragBundle.CanonicalBlocks = append(fragBundle.CanonicalBlocks, cb)
 		}
 
 		fragPayloadBlockLen := mtu - overhead
 
 		offset := int(math.Min(float64(i+fragPayloadBlockLen), float64(len(payloadBlock.Value.(*PayloadBlock).Data()))))
-		fragBundle.AddExtensionBlock(CanonicalBlock{
+		fragBundle.CanonicalBlocks = append(fragBundle.CanonicalBlocks, CanonicalBlock{
+			BlockNumber:       payloadBlock.BlockNumber,
 			BlockControlFlags: payloadBlock.BlockControlFlags,
 			CRCType:           payloadBlock.CRCType,
 			Value:             NewPayloadBlock(payloadBlock.Value.(*PayloadBlock).Data()[i:offset]),
@@ -256,12 +259,13 @@ func ReassembleFragments(bs []Bundle) (b Bundle, err error) {
 	b.PrimaryBlock.TotalDataLength = 0
 	b.PrimaryBlock.CRC = nil
 
+	// As in Bundle.Fragment, the blocks keep their block numbers and their order.
 	for _, cb := range bs[0].CanonicalBlocks {
 		if cb.TypeCode() == ExtBlockTypePayloadBlock {
 			continue
 		}
 
-		b.AddExtensionBlock(cb)
+		b.CanonicalBlocks = append(b.CanonicalBlocks, cb)
 	}
 
 	if payload, payloadErr := mergeFragmentPayload(bs); payloadErr != nil {
@@ -274,10 +278,10 @@ func ReassembleFragments(bs []Bundle) (b Bundle, err error) {
 			return
 		}
 
-		cb := NewCanonicalBlock(1, pb0.BlockControlFlags, NewPayloadBlock(payload))
+		cb := NewCanonicalBlock(pb0.BlockNumber, pb0.BlockControlFlags, NewPayloadBlock(payload))
 		cb.SetCRCType(pb0.CRCType)
 
-		b.AddExtensionBlock(cb)
+		b.CanonicalBlocks = append(b.CanonicalBlocks, cb)
 	}
 
 	err = b.CheckValid()
